@@ -89,7 +89,7 @@ SerFields(v, T, i) ==
                     \* two adjacent primitives (text items) cannot be delimited: the serializer rejects them
                     L(j, prevText) ==
                         IF j > Len(x.a) THEN <<>>
-                        ELSE LET isText == "v" \in DOMAIN x.a[j] /\ x.a[j].v = <<36, 116, 101, 120, 116>> IN
+                        ELSE LET isText == "v" \in DOMAIN x.a[j] /\ x.a[j].v = <<36, 116, 101, 120, 116>> IN    \* (an absent optional item is not text)
                              IF isText /\ prevText THEN Fail
                              ELSE Cat(SerValue(x.a[j], f.ty.of), L(j + 1, isText)) IN
                 Cat(L(1, FALSE), rest)
@@ -97,7 +97,8 @@ SerFields(v, T, i) ==
 
 \* a value in $value position: the variant name is the element name
 SerValue(x, T) ==
-    IF T.t = "enum" THEN
+    IF T.t = "opt" THEN (IF "z" \in DOMAIN x THEN <<>> ELSE SerValue(x, T.of))      \* an absent item writes nothing
+    ELSE IF T.t = "enum" THEN
         IF "u" \in DOMAIN x THEN Elem(x.u, <<>>, <<>>)
         ELSE LET S == {i \in 1..Len(T.variants) : T.variants[i].name = x.v}
                  var == T.variants[CHOOSE i \in S : TRUE] IN
